@@ -28,13 +28,16 @@ type c01Case struct {
 	MemLinkFull bool    `json:"memlinkfull"` // synthetic source announces full size for link members
 	DiffNone    bool    `json:"diffnone"`
 	Notify      bool    `json:"notify"`
-	Filter      int     `json:"filter"` // 0 none, 1 rewrite owner to 0:0, 2 rewrite to 1000:1001, 3 shift both ids by 100000
+	Filter      int     `json:"filter"`              // 0 none, 1 rewrite owner to 0:0, 2 rewrite to 1000:1001, 3 shift both ids by 100000
 	ReadStyle   int     `json:"readstyle,omitempty"` // how the synthetic source's files hand out bytes (MemFS.ReadStyle)
 	Capacity    int     `json:"capacity"`
 	// AbortAt > 0: the prior destination additionally holds the leftovers of an
 	// aborted run - a transfer of the same source whose stream broke when the
 	// receiver had taken that many packets
 	AbortAt int `json:"abort_at,omitempty"`
+	// CrossFS: the destination lies on another file system than the source and
+	// the process's temporary directory
+	CrossFS bool `json:"crossfs,omitempty"`
 }
 
 var c01TreeCfg = h.TreeCfg{
@@ -75,6 +78,7 @@ func genC01(t *rapid.T) *c01Case {
 	}
 	// identity-based differencing presupposes that equal identity means equal bytes
 	h.AlignIdenticalBy(c.Src, c.Dst, func(u, g uint32) (uint32, uint32) { return ownerRewrite(c.Filter, u, g) })
+	c.CrossFS = rapid.IntRange(0, 9).Draw(t, "crossfs") == 0 && smallXattrs(c.Src) && smallXattrs(c.Dst)
 	return c
 }
 
@@ -136,6 +140,13 @@ func expectedPartition(gid map[string]string) [][]string {
 func syncSetup(env *h.Env, src, dst *h.Tree, memSrc, memLinkFull bool) (fsutil.FS, string, error) {
 	srcDir := filepath.Join(env.Scratch, "src")
 	dstDir := filepath.Join(env.Scratch, "dst")
+	if env.DstOtherFS {
+		if other := h.OtherFSDir(env.Scratch); other != "" {
+			env.Defer(func() { h.RemoveAllForce(other) })
+			dstDir = filepath.Join(other, "dst")
+			env.Class("destination-on-another-filesystem")
+		}
+	}
 	if err := os.Mkdir(dstDir, 0o755); err != nil {
 		return nil, "", h.Infra(err)
 	}
@@ -209,6 +220,7 @@ func convergenceErrs(after, before h.Snap, src *h.Tree, filter int, keepOld ...f
 }
 
 func c01Check(env *h.Env, c *c01Case) error {
+	env.DstOtherFS = c.CrossFS
 	f, dstDir, err := syncSetup(env, c.Src, c.Dst, c.MemSrc, c.MemLinkFull)
 	if err != nil {
 		return err
